@@ -53,7 +53,7 @@ def run(c):
     c.traces = len(cases)
     c.extra.update({"evaluations": len(cases), "distinct_nontrivial": res["both_ok"], "case_space": total,
                     "queries_compared": res["queries"], "exhaustive": len(cases) == total, "both_ok_per_method": okm,
-                    "walk_space": len(walks0), "walks_run": len(walks), "walks_with_several_pages": res["walks_multi"], "states": states,
+                    "walk_space": len(walks0), "walks_run": len(walks), "walks_with_several_pages": res["walks_multi"], "chain_states": states,
                     "rule": "one evaluation = one case of the TLC-enumerated space executed as native message and as precompile call on forks of the same state; non-trivial = both executions succeeded (effects compared field by field); the rest compare accept/reject only; one walk = one page-request pattern of the TLC-enumerated space followed to exhaustion natively and through the precompile in one state"})
     mine = {}
     for v in sorted(res["viol"], key=lambda v: v["line"]):
